@@ -347,6 +347,32 @@ def match_exhaustive(ix, f, node: ast.Match):
     if classes and not values:
         if classes >= {"Success", "Failure"}:
             return None
+        # a match over a parameter whose annotation is a union of exactly the matched classes: the default arm
+        # is unreachable for arguments of the declared type (internal callers; user input never reaches it untyped)
+        if isinstance(node.subject, ast.Name):
+            for a in f.node.args.posonlyargs + f.node.args.args + f.node.args.kwonlyargs:
+                if a.arg == node.subject.id and a.annotation is not None:
+                    ann = a.annotation
+                    if isinstance(ann, ast.Constant) and isinstance(ann.value, str):
+                        try:
+                            ann = ast.parse(ann.value, mode="eval").body
+                        except SyntaxError:
+                            break
+                    members = set()
+
+                    def union(x):
+                        if isinstance(x, ast.BinOp) and isinstance(x.op, ast.BitOr):
+                            union(x.left)
+                            union(x.right)
+                        elif isinstance(x, ast.Subscript) and ast.unparse(x.value).split(".")[-1] in ("Union", "Optional"):
+                            for e_ in x.slice.elts if isinstance(x.slice, ast.Tuple) else [x.slice]:
+                                union(e_)
+                        else:
+                            members.add(ast.unparse(x).split(".")[-1])
+
+                    union(ann)
+                    if members and members <= classes:
+                        return None
         return f"class patterns {sorted(classes)} are not the two constructors of Result"
     if values and not classes:
         enums = {v.rsplit(".", 1)[0] for v in values}
@@ -477,6 +503,22 @@ def rule_tensor_method_escape(ctx, ix, esc):
             ctx.fail("C08.tensor-method-escape", key, f"{name} can escape TensorMethod construction: {why}")
 
 
+def _inline_cli_helpers(ix, f, case):
+    """A Failure arm may delegate to a module-level helper (`fail(message)`): statements that are a bare call of a
+    function of the CLI module are replaced by that function's body (one level), so that the arm is judged by what
+    it does."""
+    body = []
+    for st in case.body:
+        callee = None
+        if isinstance(st, ast.Expr) and isinstance(st.value, ast.Call) and isinstance(st.value.func, ast.Name):
+            callee = ix.funcs.get(f"{f.module}.{st.value.func.id}")
+        if callee is not None:
+            body.extend(b for b in callee.node.body if not (isinstance(b, ast.Expr) and isinstance(b.value, ast.Constant)))
+        else:
+            body.append(st)
+    return ast.match_case(pattern=case.pattern, guard=case.guard, body=body)
+
+
 def rule_cli(ctx, ix):
     """Every Result-returning call in cli.tensora is matched with a Failure arm that echoes to stderr
     and raises typer.Exit(1); the success path ends in echo / write_text; no other exit."""
@@ -506,6 +548,7 @@ def rule_cli(ctx, ix):
                 if not generic:
                     problems.append("no Failure arm that matches every payload")
             for c in fails:
+                c = _inline_cli_helpers(ix, f, c)
                 txt = ast.unparse(ast.Module(body=c.body, type_ignores=[]))
                 echo = any(
                     isinstance(n, ast.Call) and ast.unparse(n.func) == "typer.echo" and any(k.arg == "err" and ast.unparse(k.value) == "True" for k in n.keywords)
